@@ -31,6 +31,7 @@ type Stats struct {
 	exhaustive *bool
 	extra      map[string]any
 	lastFlush  time.Time
+	flushCost  time.Duration
 }
 
 var St = &Stats{nt: map[uint64]struct{}{}, classes: map[string]int64{}, extra: map[string]any{}}
@@ -46,21 +47,30 @@ func Hash(parts ...any) uint64 {
 func (s *Stats) Eval(n int) {
 	s.mu.Lock()
 	s.evals += int64(n)
-	due := time.Since(s.lastFlush) > 3*time.Second
+	due := time.Since(s.lastFlush) > 3*time.Second+20*s.flushCost
 	if due {
 		s.lastFlush = time.Now()
 	}
 	s.mu.Unlock()
 	if due {
 		// so that a process killed by the code under test (fatal error, race detector halt) leaves its counters behind
+		t0 := time.Now()
 		s.Flush()
+		s.mu.Lock()
+		s.flushCost = time.Since(t0)
+		s.mu.Unlock()
 	}
 }
 
 // NT records one distinct non-trivial case, identified by its hash.
 func (s *Stats) NT(h uint64) {
 	s.mu.Lock()
-	s.nt[h] = struct{}{}
+	if len(s.nt) < 300000 {
+		s.nt[h] = struct{}{}
+	} else if _, ok := s.nt[h]; !ok {
+		// beyond 300k distinct cases per process the set is no longer grown: the reported number is a lower bound
+		s.classes["nontrivial_cases_beyond_the_300k_tracked_per_process"]++
+	}
 	s.mu.Unlock()
 }
 
